@@ -648,3 +648,39 @@ func SelValue[T any](r Sel, _ chan T) (T, bool) {
 func SelValueRO[T any](r Sel, _ <-chan T) (T, bool) {
 	return unbox[T](r.val), r.ok
 }
+
+// TrySendSO is a non-blocking send from scheduler context (sim-side packages:
+// timers, notifications). It never yields. Reports whether the value was
+// accepted (buffer space or a waiting receiver).
+func TrySendSO[T any](ch chan<- T, v T) bool {
+	s := active
+	if s == nil {
+		select {
+		case ch <- v:
+			return true
+		default:
+			return false
+		}
+	}
+	if s.dead() {
+		return false
+	}
+	st := s.lookup(chanKeySO(ch))
+	if st == nil {
+		select {
+		case ch <- v:
+			s.progress++
+			return true
+		default:
+			return false
+		}
+	}
+	if st.closed {
+		return false
+	}
+	ok := st.trySend(v)
+	if ok {
+		s.progress++
+	}
+	return ok
+}
